@@ -472,7 +472,32 @@ Definition is_ascii_ws (c : N) : bool :=
   (c =? 32)%N || (c =? 9)%N || (c =? 10)%N || (c =? 11)%N || (c =? 12)%N || (c =? 13)%N.
 Fixpoint drop_while (p : N -> bool) (s : bytes) : bytes :=
   match s with [] => [] | c :: r => if p c then drop_while p r else s end.
-Definition trim_ws (s : bytes) : bytes := rev (drop_while is_ascii_ws (rev (drop_while is_ascii_ws s))).
+(* strings.TrimSpace: besides the ASCII white space it removes the other Unicode White_Space characters, UTF-8 encoded:
+   U+0085, U+00A0 (two bytes), U+1680, U+2000..U+200A, U+2028, U+2029, U+202F, U+205F, U+3000 (three bytes); a byte
+   sequence that is not the encoding of one of them stops the trimming (also an invalid one) *)
+Definition is_uws2 (a b : N) : bool := (a =? 194)%N && ((b =? 133)%N || (b =? 160)%N).
+Definition is_uws3 (a b c : N) : bool :=
+  ((a =? 225)%N && (b =? 154)%N && (c =? 128)%N) ||
+  ((a =? 226)%N && (b =? 128)%N && (((128 <=? c)%N && (c <=? 138)%N) || (c =? 168)%N || (c =? 169)%N || (c =? 175)%N)) ||
+  ((a =? 226)%N && (b =? 129)%N && (c =? 159)%N) ||
+  ((a =? 227)%N && (b =? 128)%N && (c =? 128)%N).
+(* fwd = true: from the left; fwd = false: [s] is the reversed text and the sequences are read backwards *)
+Fixpoint trim_sp (fwd : bool) (s : bytes) : bytes :=
+  match s with
+  | [] => []
+  | c :: r =>
+      if is_ascii_ws c then trim_sp fwd r
+      else match r with
+           | d :: r2 =>
+               if (if fwd then is_uws2 c d else is_uws2 d c) then trim_sp fwd r2
+               else match r2 with
+                    | e :: r3 => if (if fwd then is_uws3 c d e else is_uws3 e d c) then trim_sp fwd r3 else s
+                    | [] => s
+                    end
+           | [] => s
+           end
+  end.
+Definition trim_ws (s : bytes) : bytes := rev (trim_sp false (rev (trim_sp true s))).
 
 (* nextTimestamp: None = no timestamp given (the server's clock is used) *)
 Definition parse_ts (s : bytes) : result (option Z) :=
